@@ -1,7 +1,910 @@
 package main
 
-import "verif/engine"
+import (
+	"fmt"
+	"math"
+	"math/big"
 
-func ckksScenarios(tier string) []engine.Scenario { return nil }
+	"github.com/tuneinsight/lattigo/v6/core/rlwe"
+	"github.com/tuneinsight/lattigo/v6/ring"
+	"github.com/tuneinsight/lattigo/v6/ring/ringqp"
+	"github.com/tuneinsight/lattigo/v6/schemes/ckks"
+	"github.com/tuneinsight/lattigo/v6/utils/bignum"
 
-func expect(tier string) []string { return nil }
+	"verif/engine"
+	"verif/ref"
+	"verif/uni"
+)
+
+// ---------------------------------------------------------------------------------------------
+// CKKS approximate encoder
+//
+// Error budget (derived, then multiplied by the safety factor 16):
+//
+//   encode: the encoder computes u = IFFT(v) in its working precision (float64: p = 53, else p = Prec()) and rounds
+//   scale*u coefficient-wise to the nearest integer. A coefficient error e_k contributes at most sum_k |e_k| to a slot
+//   (|zeta| = 1; 2n coefficients in the standard ring, weights 1,2,..,2 in the conjugate-invariant one), so
+//       rounding      <= 2n * (1/2) / scale = n/scale
+//       floating point: a radix-2 (I)FFT on n points has forward error <= 4*eps*log2(n)*max|v| per coefficient
+//                       (eps = 2^-p); we allow 8*(log2 n + 2) + 4 ulps per coefficient (twiddle errors, the
+//                       float conversion of scale and of the product), i.e. 2n*(8(log n+2)+4)*2^-p*max|v| per slot.
+//   decode: d = FFT(a/scale): error <= (8(log n+2)+4)*2^-p * sum_k|a_k|/scale per slot, plus half an ulp of the output
+//   type (2^-52 |z| for float64 / complex128 outputs).
+//   DecodePublic(logprec): additionally |d - Decode| <= 2^-logprec / 2 and d * 2^logprec is an integer (up to 2^-p
+//   relative, since the arbitrary-precision path computes 2^logprec with exp/log).
+const safety = 16
+
+type ckksConf struct {
+	name     string
+	logN     int
+	rt       ring.Type
+	logQ     []int
+	logP     []int
+	logScale int
+	prec     uint // 0: the parameters' EncodingPrecision()
+}
+
+func (cf ckksConf) String() string { return cf.name }
+
+func ckksConfigs(tier string) []ckksConf {
+	var r []ckksConf
+	logNs := []int{4, 5, 6}
+	for _, logN := range logNs {
+		for _, rt := range []ring.Type{ring.Standard, ring.ConjugateInvariant} {
+			rn := map[ring.Type]string{ring.Standard: "std", ring.ConjugateInvariant: "ci"}[rt]
+			add := func(tag string, logQ, logP []int, ls int, prec uint) {
+				r = append(r, ckksConf{name: fmt.Sprintf("logn%d-%s-%s", logN, rn, tag), logN: logN, rt: rt, logQ: logQ, logP: logP, logScale: ls, prec: prec})
+			}
+			add("s45-prec53", []int{55, 45, 45}, []int{55}, 45, 0)
+			add("s45-prec128", []int{55, 45, 45}, []int{55}, 45, 128)
+			add("s80-prec80", []int{60, 60, 60, 60}, []int{60}, 80, 0)
+			add("s80-prec256", []int{60, 60, 60, 60}, []int{60}, 80, 256)
+			if logN == 4 || tier == "thorough" {
+				add("s80-prec53", []int{60, 60, 60, 60}, []int{60}, 80, 53)
+				add("s45-prec64", []int{55, 45, 45}, []int{55}, 45, 64)
+			}
+		}
+	}
+	return r
+}
+
+type ckksWorld struct {
+	cf   ckksConf
+	p    ckks.Parameters
+	ecd  *ckks.Encoder
+	prec uint // working precision of the encoder
+	N    int
+	maxL int // max LogDimensions.Cols
+	L    int
+}
+
+var ckksWorlds = map[string]*ckksWorld{}
+
+func getCkksWorld(cf ckksConf) *ckksWorld {
+	if w, ok := ckksWorlds[cf.name]; ok {
+		return w
+	}
+	p, err := ckks.NewParametersFromLiteral(ckks.ParametersLiteral{LogN: cf.logN, LogQ: cf.logQ, LogP: cf.logP, LogDefaultScale: cf.logScale, RingType: cf.rt})
+	if err != nil {
+		panic(fmt.Sprintf("ckks params %s: %v", cf.name, err))
+	}
+	w := &ckksWorld{cf: cf, p: p, N: p.N(), maxL: p.LogMaxDimensions().Cols, L: p.MaxLevel()}
+	if cf.prec == 0 {
+		w.ecd = ckks.NewEncoder(p)
+	} else {
+		w.ecd = ckks.NewEncoder(p, cf.prec)
+	}
+	w.prec = w.ecd.Prec()
+	ckksWorlds[cf.name] = w
+	return w
+}
+
+func (w *ckksWorld) precEff() int {
+	if w.prec <= 53 {
+		return 53
+	}
+	return int(w.prec)
+}
+
+func (w *ckksWorld) path() string {
+	if w.prec <= 53 {
+		return "float64"
+	}
+	return "arbitrary"
+}
+
+// element types
+const (
+	tyC128 = iota
+	tyF64
+	tyBigF
+	tyBigC
+)
+
+var tyNames = []string{"[]complex128", "[]float64", "[]*big.Float", "[]*bignum.Complex"}
+
+func isRealType(ty int) bool { return ty == tyF64 || ty == tyBigF }
+
+// value families
+const (
+	famMixed = iota
+	famUnits
+	famZero
+	famTiny
+	famLarge
+)
+
+var famNames = []string{"mixed", "units", "zero", "tiny", "large"}
+
+// family returns ln exact values (as float64 pairs, hence representable in every element type).
+func family(fam, ln int, scale *big.Float, Q *big.Int) ([]complex128, bool) {
+	v := make([]complex128, ln)
+	sf, _ := scale.Float64()
+	switch fam {
+	case famMixed:
+		for j := range v {
+			s := 1.0
+			if j%2 == 1 {
+				s = -1
+			}
+			v[j] = complex(s*float64(j+1)/8, float64(j+2)/16)
+		}
+	case famUnits:
+		u := []complex128{1, -1, 1i, -1i, 0}
+		for j := range v {
+			v[j] = u[j%len(u)]
+		}
+	case famZero:
+	case famTiny:
+		for j := range v {
+			s := 1.0
+			if j%2 == 1 {
+				s = -1
+			}
+			v[j] = complex(s*(0.4+float64(j))/sf, 0.6/sf)
+		}
+	case famLarge:
+		// largest magnitude: Q/(4*scale) (coefficients of scale*IFFT(v) then stay below Q/4 in absolute value)
+		m := new(big.Float).SetInt(Q)
+		m.Quo(m, scale)
+		mf, _ := m.Float64()
+		mf *= 0.249
+		if math.IsInf(mf, 0) || mf < 4 {
+			return nil, false
+		}
+		u := []complex128{1, -1, 1i, -1i, complex(0.5, 0.5)}
+		for j := range v {
+			v[j] = u[j%len(u)] * complex(mf*float64(j%3+1)/3, 0)
+		}
+	}
+	return v, true
+}
+
+func typedInput(ty int, v []complex128) interface{} {
+	switch ty {
+	case tyC128:
+		return append([]complex128(nil), v...)
+	case tyF64:
+		r := make([]float64, len(v))
+		for i := range v {
+			r[i] = real(v[i])
+		}
+		return r
+	case tyBigF:
+		r := make([]*big.Float, len(v))
+		for i := range v {
+			r[i] = new(big.Float).SetPrec(256).SetFloat64(real(v[i]))
+		}
+		return r
+	default:
+		r := make([]*bignum.Complex, len(v))
+		for i := range v {
+			r[i] = &bignum.Complex{new(big.Float).SetPrec(256).SetFloat64(real(v[i])), new(big.Float).SetPrec(256).SetFloat64(imag(v[i]))}
+		}
+		return r
+	}
+}
+
+// expectedSlots: what the n slots must hold: the values (real part only for real element types and for the
+// conjugate-invariant ring, whose doc says the imaginary part is discarded), zero beyond len(v).
+func expectedSlots(v []complex128, n, ty int, rt ring.Type) []cplx {
+	out := make([]cplx, n)
+	for j := range out {
+		out[j] = cNew()
+		if j < len(v) {
+			out[j].re.SetFloat64(real(v[j]))
+			if !isRealType(ty) && rt == ring.Standard {
+				out[j].im.SetFloat64(imag(v[j]))
+			}
+		}
+	}
+	return out
+}
+
+// slotsOf returns the exact slot values of a plaintext polynomial (coefficients recovered from the RNS residues
+// by CRT, centred), divided by scale; offGrid reports non-zero coefficients outside Z[X^gap]; sumAbs = sum |a_k|/scale.
+func (w *ckksWorld) slotsOf(poly ring.Poly, level int, isNTT, isMont bool, logSlots int, scale *big.Float) (z []cplx, offGrid bool, sumAbs *big.Float) {
+	n := 1 << logSlots
+	cs := uni.PolyCoeffs(w.p.RingQ(), poly, level, isNTT, isMont)
+	Q := uni.QAtLevel(w.p.Parameters, level)
+	nc := 2 * n
+	if w.cf.rt == ring.ConjugateInvariant {
+		nc = n
+	}
+	gap := w.N / nc
+	a := make([]*big.Float, nc)
+	sumAbs = newF()
+	for k, c := range cs {
+		v := ref.Center(c, Q)
+		if k%gap != 0 {
+			if v.Sign() != 0 {
+				offGrid = true
+			}
+			continue
+		}
+		f := newF().SetInt(v)
+		f.Quo(f, scale)
+		a[k/gap] = f
+		sumAbs.Add(sumAbs, newF().Abs(f))
+	}
+	if w.cf.rt == ring.ConjugateInvariant {
+		// weights 1,2,...,2 of the basis 1, Y^k+Y^-k
+		sumAbs.Mul(sumAbs, newF().SetInt64(2))
+		return embedConjInv(a, n), offGrid, sumAbs
+	}
+	return embedStandard(a, n), offGrid, sumAbs
+}
+
+func (w *ckksWorld) ulps(logSlots int) *big.Float {
+	// (8(log n + 2) + 4) * 2^-p
+	u := newF().SetInt64(int64(8*(logSlots+2) + 4))
+	return u.Mul(u, pow2(-w.precEff()))
+}
+
+// encTol: 16 * (n/scale + 2n * ulps * max|v|)
+func (w *ckksWorld) encTol(logSlots int, scale, maxv *big.Float) *big.Float {
+	n := newF().SetInt64(int64(1) << logSlots)
+	a := newF().Quo(n, scale)
+	b := newF().Mul(w.ulps(logSlots), maxv)
+	b.Mul(b, n).Mul(b, newF().SetInt64(2))
+	a.Add(a, b)
+	return a.Mul(a, newF().SetInt64(safety))
+}
+
+// decTol: 16 * (ulps * sum|a_k|/scale + 2^-52 |z| for float outputs)
+func (w *ckksWorld) decTol(logSlots int, sumAbs, absZ *big.Float, floatOut bool) *big.Float {
+	a := newF().Mul(w.ulps(logSlots), sumAbs)
+	if floatOut || w.prec <= 53 {
+		a.Add(a, newF().Mul(absZ, pow2(-52)))
+	}
+	return a.Mul(a, newF().SetInt64(safety))
+}
+
+// readOutput converts a decoded slice to exact pairs.
+func readOutput(out interface{}, n int) ([]cplx, string) {
+	r := make([]cplx, n)
+	switch o := out.(type) {
+	case []complex128:
+		for j := 0; j < n; j++ {
+			if math.IsNaN(real(o[j])) || math.IsNaN(imag(o[j])) || math.IsInf(real(o[j]), 0) || math.IsInf(imag(o[j]), 0) {
+				return nil, fmt.Sprintf("slot %d is %v", j, o[j])
+			}
+			r[j] = cplx{fFrom(real(o[j])), fFrom(imag(o[j]))}
+		}
+	case []float64:
+		for j := 0; j < n; j++ {
+			if math.IsNaN(o[j]) || math.IsInf(o[j], 0) {
+				return nil, fmt.Sprintf("slot %d is %v", j, o[j])
+			}
+			r[j] = cplx{fFrom(o[j]), newF()}
+		}
+	case []*big.Float:
+		for j := 0; j < n; j++ {
+			if o[j] == nil {
+				return nil, fmt.Sprintf("slot %d is nil", j)
+			}
+			r[j] = cplx{newF().Set(o[j]), newF()}
+		}
+	case []*bignum.Complex:
+		for j := 0; j < n; j++ {
+			if o[j] == nil || o[j][0] == nil {
+				return nil, fmt.Sprintf("slot %d is nil", j)
+			}
+			// the coefficient-domain decoder leaves the imaginary part nil: read as zero (noted in FINDINGS.md as an
+			// observation, not judged: the statement speaks about values)
+			r[j] = cplx{newF().Set(o[j][0]), newF()}
+			if o[j][1] != nil {
+				r[j].im.Set(o[j][1])
+			}
+		}
+	}
+	return r, ""
+}
+
+func newOutput(ty, n int) interface{} {
+	switch ty {
+	case tyC128:
+		return make([]complex128, n)
+	case tyF64:
+		return make([]float64, n)
+	case tyBigF:
+		return make([]*big.Float, n)
+	default:
+		return make([]*bignum.Complex, n)
+	}
+}
+
+type ckksSpec struct {
+	logSlots int
+	level    int
+	scale    *big.Float
+	scaleTag string
+	ntt      bool
+	inTy     int
+	fam      int
+	ln       int
+}
+
+func (s ckksSpec) String() string {
+	return fmt.Sprintf("logSlots=%d level=%d scale=%s ntt=%v in=%s values=%s len=%d", s.logSlots, s.level, s.scaleTag, s.ntt, tyNames[s.inTy], famNames[s.fam], s.ln)
+}
+
+func dirty(p ring.Poly, qs []uint64) {
+	for i := range p.Coeffs {
+		for j := range p.Coeffs[i] {
+			p.Coeffs[i][j] = uint64(12345+7*i+3*j) % qs[i]
+		}
+	}
+}
+
+// knownClass maps configurations on which a triaged finding sits to that finding's own signature, so that it
+// neither hides other violations of the same scenario nor gets confused with them.
+func (w *ckksWorld) knownClass(s ckksSpec) string {
+	n := 1 << s.logSlots
+	full := s.logSlots == w.maxL
+	switch {
+	case !s.ntt && !full:
+		return "C07/ckks/embed/sparse-and-not-NTT" // rlwe.NTTSparseAndMontgomery, IsNTT=false branch
+	case w.cf.rt == ring.ConjugateInvariant && n == 1 && !full:
+		return "C07/ckks/embed/conjugate-invariant-single-slot"
+	}
+	return ""
+}
+
+// roundTrip runs encode -> exact embedding -> decode (all output types, plain and public) for one spec.
+func (w *ckksWorld) roundTrip(c *engine.Chooser, s ckksSpec) bool {
+	n := 1 << s.logSlots
+	Q := uni.QAtLevel(w.p.Parameters, s.level)
+	v, ok := family(s.fam, s.ln, s.scale, Q)
+	if !ok {
+		c.Skip("scale too large for this level")
+		return false
+	}
+	// precondition: scale * max|v| (times the 2n terms of a slot->coefficient sum bounded by max|v| itself) < Q/4
+	maxv := newF()
+	for _, x := range v {
+		maxv = fMax(maxv, newF().SetFloat64(math.Abs(real(x))+math.Abs(imag(x))))
+	}
+	lim := newF().SetInt(Q)
+	lim.Quo(lim, newF().SetInt64(4))
+	if newF().Mul(maxv, s.scale).Cmp(lim) > 0 {
+		c.Skip("scale too large for this level")
+		return false
+	}
+	sig := "C07/ckks/" + w.path()
+	if k := w.knownClass(s); k != "" {
+		sig = k
+	}
+	pt := ckks.NewPlaintext(w.p, s.level)
+	pt.LogDimensions.Cols = s.logSlots
+	pt.Scale = rlwe.NewScale(s.scale)
+	pt.IsNTT = s.ntt
+	dirty(pt.Value, w.p.Q())
+	err, pan := uni.Try(func() error { return w.ecd.Encode(typedInput(s.inTy, v), pt) })
+	if pan != nil {
+		failD(c, sig+"/encode-panic", "%v: Encode panicked: %v", s, pan)
+		return false
+	}
+	if err != nil {
+		failD(c, sig+"/encode-error", "%v: Encode: %v", s, err)
+		return false
+	}
+	want := expectedSlots(v, n, s.inTy, w.cf.rt)
+	z, off, sumAbs := w.slotsOf(pt.Value, s.level, s.ntt, false, s.logSlots, s.scale)
+	if off {
+		failD(c, sig+"/outside-subring", "%v: the encoded polynomial has non-zero coefficients outside Z[X^(N/%d)]", s, len(z))
+		return false
+	}
+	et := w.encTol(s.logSlots, s.scale, maxv)
+	for j := range want {
+		d := cAbsUpper(cSub(z[j], want[j]))
+		if d.Cmp(newF().Mul(et, newF().SetInt64(2))) > 0 { // cAbsUpper <= sqrt2*|.|: compare against 2*tol
+			what := "encode-value"
+			if j >= len(v) {
+				what = "unspecified-slot-not-zero"
+			}
+			failD(c, sig+"/"+what, "%v: slot %d of the encoded polynomial is (%s, %s), want (%s, %s); |diff| = %s > budget %s",
+				s, j, z[j].re.Text('g', 20), z[j].im.Text('g', 20), want[j].re.Text('g', 20), want[j].im.Text('g', 20), d.Text('g', 6), et.Text('g', 6))
+			return false
+		}
+	}
+	// decode into every element type, plain and public
+	if w.cf.rt == ring.ConjugateInvariant && w.prec > 53 && w.knownClass(s) == "" {
+		// triaged finding: polyToComplexCRT/NoCRT (arbitrary precision, conjugate-invariant ring) subtracts from the
+		// stale imaginary parts of the encoder's internal buffer; the decode error then depends on the previous use
+		// of the encoder. Own signature; the encode oracles above are unaffected.
+		sig = "C07/ckks/arbitrary/conjugate-invariant-decode-stale-buffer"
+	}
+	for outTy := 0; outTy < 4; outTy++ {
+		for _, logprec := range []float64{0, 10, 25} {
+			out := newOutput(outTy, n)
+			err, pan := uni.Try(func() error {
+				if logprec == 0 {
+					return w.ecd.Decode(pt, out)
+				}
+				return w.ecd.DecodePublic(pt, out, logprec)
+			})
+			tag := fmt.Sprintf("out=%s logprec=%v", tyNames[outTy], logprec)
+			if pan != nil {
+				failD(c, sig+"/decode-panic", "%v %s: Decode panicked: %v", s, tag, pan)
+				return false
+			}
+			if err != nil {
+				failD(c, sig+"/decode-error", "%v %s: Decode: %v", s, tag, err)
+				return false
+			}
+			got, bad := readOutput(out, n)
+			if bad != "" {
+				failD(c, sig+"/decode-value", "%v %s: %s", s, tag, bad)
+				return false
+			}
+			floatOut := outTy == tyC128 || outTy == tyF64
+			for j := range z {
+				exp := z[j]
+				if isRealType(outTy) {
+					exp = cplx{z[j].re, newF()}
+				}
+				tol := w.decTol(s.logSlots, sumAbs, cAbsUpper(z[j]), floatOut)
+				if logprec != 0 {
+					tol.Add(tol, pow2(-int(logprec))) // half a unit per component, two components
+				}
+				d := cAbsUpper(cSub(got[j], exp))
+				if d.Cmp(newF().Mul(tol, newF().SetInt64(2))) > 0 {
+					what := "decode-value"
+					if logprec != 0 {
+						what = "decode-public-value"
+					}
+					failD(c, sig+"/"+what, "%v %s: slot %d decodes to (%s, %s), exact embedding (%s, %s); |diff| = %s > budget %s", s, tag, j,
+						got[j].re.Text('g', 20), got[j].im.Text('g', 20), exp.re.Text('g', 20), exp.im.Text('g', 20), d.Text('g', 6), tol.Text('g', 6))
+					return false
+				}
+				if logprec != 0 {
+					// multiples of 2^-logprec (relative slack 2^-(p-4): the arbitrary path computes 2^logprec by exp/log)
+					for _, comp := range []*big.Float{got[j].re, got[j].im} {
+						x := newF().Mul(comp, pow2(int(logprec)))
+						r := newF().Add(x, newF().SetFloat64(0.5))
+						ri, _ := r.Int(nil)
+						if r.Sign() < 0 && !r.IsInt() {
+							ri.Sub(ri, big.NewInt(1)) // floor for negatives
+						}
+						diff := newF().Sub(x, newF().SetInt(ri))
+						diff.Abs(diff)
+						slack := newF().Mul(newF().Abs(x), pow2(-w.precEff()+4))
+						if diff.Cmp(slack) > 0 {
+							failD(c, sig+"/decode-public-not-a-multiple", "%v %s: slot %d component %s is not a multiple of 2^-%v", s, tag, j, comp.Text('g', 25), logprec)
+							return false
+						}
+					}
+				}
+			}
+		}
+	}
+	return true
+}
+
+func (w *ckksWorld) scaleOptions() ([]*big.Float, []string) {
+	odd := newF().SetFloat64(math.Exp2(40) + 12345.678)
+	return []*big.Float{pow2(w.cf.logScale), pow2(20), pow2(80), pow2(120), odd}, []string{"default", "2^20", "2^80", "2^120", "2^40+12345.678"}
+}
+
+func (w *ckksWorld) cover(c *engine.Chooser, s ckksSpec) {
+	c.Cover("ckks-logn", fmt.Sprint(w.cf.logN))
+	c.Cover("ckks-ring", map[ring.Type]string{ring.Standard: "standard", ring.ConjugateInvariant: "conjugate-invariant"}[w.cf.rt])
+	c.Cover("ckks-path", w.path())
+	c.Cover("ckks-prec", fmt.Sprint(w.prec))
+	c.Cover("ckks-in", tyNames[s.inTy])
+	c.Cover("ckks-values", famNames[s.fam])
+	c.Cover("ckks-scale", s.scaleTag)
+	c.Cover("ckks-ntt", fmt.Sprint(s.ntt))
+	if s.logSlots == w.maxL {
+		c.Cover("ckks-slots", "full")
+	} else if s.logSlots == 0 {
+		c.Cover("ckks-slots", "1")
+	} else {
+		c.Cover("ckks-slots", "sparse")
+	}
+	if s.level == 0 {
+		c.Cover("ckks-level", "0")
+	} else {
+		c.Cover("ckks-level", ">0")
+	}
+}
+
+// shapeScenario: LogDimensions x level x NTT flag x input type x length, default scale, mixed values.
+func ckksShapeScenario(cf ckksConf) engine.Scenario {
+	name := "ckks/" + cf.name + "/shape"
+	return engine.Scenario{Name: name, Bound: -1, Fn: func(c *engine.Chooser) {
+		w := getCkksWorld(cf)
+		s := ckksSpec{scale: pow2(cf.logScale), scaleTag: "default", fam: famMixed}
+		s.logSlots = w.maxL - c.Choose(w.maxL+1, "logSlots") // choice 0 = full packing
+		s.level = w.L - c.Choose(w.L+1, "level")
+		s.ntt = c.Choose(2, "ntt") == 0
+		s.inTy = c.Choose(4, "inType")
+		n := 1 << s.logSlots
+		s.ln = []int{n, 1, maxI(n-1, 1)}[c.Choose(3, "len")]
+		w.cover(c, s)
+		if w.roundTrip(c, s) {
+			c.Outcome(name, s.String())
+		}
+		c.Count(13)
+	}}
+}
+
+// valueScenario: scale x value family x level, full and 2-slot packing, every input type.
+func ckksValueScenario(cf ckksConf) engine.Scenario {
+	name := "ckks/" + cf.name + "/values"
+	return engine.Scenario{Name: name, Bound: -1, Fn: func(c *engine.Chooser) {
+		w := getCkksWorld(cf)
+		scs, tags := w.scaleOptions()
+		si := c.Choose(len(scs), "scale")
+		s := ckksSpec{scale: scs[si], scaleTag: tags[si], ntt: true}
+		s.fam = c.Choose(5, "values")
+		s.level = w.L - c.Choose(w.L+1, "level")
+		s.logSlots = []int{w.maxL, 1}[c.Choose(2, "logSlots")]
+		s.inTy = c.Choose(4, "inType")
+		s.ln = 1 << s.logSlots
+		w.cover(c, s)
+		if w.roundTrip(c, s) {
+			c.Outcome(name, s.String())
+		}
+		c.Count(13)
+	}}
+}
+
+// coeffScenario: coefficient domain (IsBatched=false): coefficient k = round(v_k*scale), decode = coefficient/scale.
+func ckksCoeffScenario(cf ckksConf) engine.Scenario {
+	name := "ckks/" + cf.name + "/coeff-domain"
+	return engine.Scenario{Name: name, Bound: -1, Fn: func(c *engine.Chooser) {
+		w := getCkksWorld(cf)
+		scs, tags := w.scaleOptions()
+		si := c.Choose(len(scs), "scale")
+		scale := scs[si]
+		fam := c.Choose(5, "values")
+		level := w.L - c.Choose(w.L+1, "level")
+		ntt := c.Choose(2, "ntt") == 0
+		bigIn := c.Bool("bigfloat")
+		ln := []int{w.N, 3}[c.Choose(2, "len")]
+		Q := uni.QAtLevel(w.p.Parameters, level)
+		vc, ok := family(fam, ln, scale, Q)
+		if !ok {
+			c.Skip("scale too large for this level")
+			return
+		}
+		c.Cover("ckks-domain", "coeff")
+		c.Cover("ckks-coeff-in", map[bool]string{true: "[]*big.Float", false: "[]float64"}[bigIn])
+		lim := newF().SetInt(Q)
+		lim.Quo(lim, newF().SetInt64(4))
+		for _, x := range vc {
+			if newF().Mul(fFrom(math.Abs(real(x))), scale).Cmp(lim) > 0 {
+				c.Skip("scale too large for this level")
+				return
+			}
+		}
+		desc := fmt.Sprintf("level=%d scale=%s ntt=%v bigfloat=%v values=%s len=%d", level, tags[si], ntt, bigIn, famNames[fam], ln)
+		sig := "C07/ckks/coeff-domain"
+		if !ntt {
+			sig = "C07/ckks/coeff-domain/not-NTT" // Encode always applies the NTT, Decode honours IsNTT
+		}
+		pt := ckks.NewPlaintext(w.p, level)
+		pt.IsBatched = false
+		pt.IsNTT = ntt
+		pt.Scale = rlwe.NewScale(scale)
+		dirty(pt.Value, w.p.Q())
+		var in interface{}
+		if bigIn {
+			in = typedInput(tyBigF, vc)
+		} else {
+			in = typedInput(tyF64, vc)
+		}
+		err, pan := uni.Try(func() error { return w.ecd.Encode(in, pt) })
+		if pan != nil || err != nil {
+			failD(c, sig+"/encode-failed", "%s: err=%v panic=%v", desc, err, pan)
+			return
+		}
+		cs := uni.PolyCoeffs(w.p.RingQ(), pt.Value, level, ntt, false)
+		relIn := pow2(-50)
+		if bigIn {
+			relIn = pow2(-100)
+		}
+		exact := make([]*big.Float, w.N)
+		for k := 0; k < w.N; k++ {
+			got := newF().SetInt(ref.Center(cs[k], Q))
+			exact[k] = newF().Quo(got, scale)
+			exp := newF()
+			if k < ln {
+				exp.Mul(fFrom(real(vc[k])), scale)
+			}
+			tol := newF().Mul(newF().Abs(exp), relIn)
+			tol.Add(tol, newF().SetFloat64(0.5001))
+			if d := newF().Sub(got, exp); d.Abs(d).Cmp(tol) > 0 {
+				what := "/encode-value"
+				s2 := sig
+				if k >= ln {
+					what = "/unspecified-coefficient-not-zero"
+					if bigIn {
+						s2 = "C07/ckks/coeff-domain/bigfloat-short-vector" // BigFloatToFixedPointCRT does not clear the tail
+					}
+				}
+				failD(c, s2+what, "%s: coefficient %d is %s, want round(%s)", desc, k, got.Text('g', 25), exp.Text('g', 25))
+				return
+			}
+		}
+		for outTy := 0; outTy < 4; outTy++ {
+			out := newOutput(outTy, w.N)
+			err, pan := uni.Try(func() error { return w.ecd.Decode(pt, out) })
+			if pan != nil || err != nil {
+				failD(c, sig+"/decode-failed", "%s out=%s: err=%v panic=%v", desc, tyNames[outTy], err, pan)
+				return
+			}
+			got, bad := readOutput(out, w.N)
+			if bad != "" {
+				// []*bignum.Complex outputs: the imaginary part is left nil by the coefficient-domain decoder
+				failD(c, sig+"/decode-value", "%s out=%s: %s", desc, tyNames[outTy], bad)
+				return
+			}
+			rel := pow2(-49)
+			if w.prec > 53 && (outTy == tyBigF || outTy == tyBigC) {
+				rel = pow2(-100)
+			}
+			for k := range exact {
+				tol := newF().Mul(newF().Abs(exact[k]), rel)
+				if d := newF().Sub(got[k].re, exact[k]); d.Abs(d).Cmp(tol) > 0 || got[k].im.Sign() != 0 {
+					failD(c, sig+"/decode-value", "%s out=%s: coefficient %d decodes to (%s,%s), exact %s", desc, tyNames[outTy], k, got[k].re.Text('g', 25), got[k].im.Text('g', 5), exact[k].Text('g', 25))
+					return
+				}
+			}
+		}
+		c.Outcome(name, desc)
+		c.Count(5)
+	}}
+}
+
+// productScenario: the product (in the ring) of two encodings at scale D decodes, at scale D^2, to the slot-wise product.
+func ckksProductScenario(cf ckksConf) engine.Scenario {
+	name := "ckks/" + cf.name + "/product"
+	return engine.Scenario{Name: name, Bound: -1, Fn: func(c *engine.Chooser) {
+		w := getCkksWorld(cf)
+		logSlots := w.maxL - c.Choose(w.maxL+1, "logSlots")
+		famA := []int{famMixed, famUnits}[c.Choose(2, "valuesA")]
+		inTy := c.Choose(4, "inType")
+		level := w.L
+		n := 1 << logSlots
+		scale := pow2(cf.logScale)
+		if cf.rt == ring.ConjugateInvariant && n == 1 && logSlots != w.maxL {
+			c.Skip("covered by the single-slot finding of the shape scenario")
+			return
+		}
+		c.Cover("ckks-product", fmt.Sprintf("logn%d", cf.logN))
+		Q := uni.QAtLevel(w.p.Parameters, level)
+		va, _ := family(famA, n, scale, Q)
+		vb, _ := family(famMixed, n, scale, Q)
+		for j := range vb {
+			vb[j] = complex(imag(vb[j])+0.25, -real(vb[j]))
+		}
+		mk := func(v []complex128) (*rlwe.Plaintext, []cplx, *big.Float) {
+			pt := ckks.NewPlaintext(w.p, level)
+			pt.LogDimensions.Cols = logSlots
+			if err := w.ecd.Encode(typedInput(inTy, v), pt); err != nil {
+				panic(err)
+			}
+			mv := newF()
+			for _, x := range v {
+				mv = fMax(mv, fFrom(math.Abs(real(x))+math.Abs(imag(x))))
+			}
+			return pt, expectedSlots(v, n, inTy, cf.rt), mv
+		}
+		pa, ea, ma := mk(va)
+		pb, eb, mb := mk(vb)
+		rq := w.p.RingQ().AtLevel(level)
+		prod := ckks.NewPlaintext(w.p, level)
+		prod.LogDimensions.Cols = logSlots
+		rq.MulCoeffsBarrett(pa.Value, pb.Value, prod.Value)
+		s2 := newF().Mul(scale, scale)
+		prod.Scale = rlwe.NewScale(s2)
+		out := make([]*bignum.Complex, n)
+		if err := w.ecd.Decode(prod, out); err != nil {
+			failD(c, "C07/ckks/product/decode-error", "%v", err)
+			return
+		}
+		got, bad := readOutput(out, n)
+		if bad != "" {
+			failD(c, "C07/ckks/product/value", "%s", bad)
+			return
+		}
+		ta, tb := w.encTol(logSlots, scale, ma), w.encTol(logSlots, scale, mb)
+		// decode budget: sum|a_k|/scale^2 of the product polynomial <= 2n * (2n max|a| max|b|)
+		sum := newF().Mul(ma, mb)
+		sum.Mul(sum, newF().SetInt64(int64(8*n*n)))
+		for j := 0; j < n; j++ {
+			exp := cMul(ea[j], eb[j])
+			tol := newF().Mul(cAbsUpper(ea[j]), tb)
+			tol.Add(tol, newF().Mul(cAbsUpper(eb[j]), ta))
+			tol.Add(tol, newF().Mul(ta, tb))
+			tol.Add(tol, w.decTol(logSlots, sum, cAbsUpper(exp), false))
+			d := cAbsUpper(cSub(got[j], exp))
+			if d.Cmp(newF().Mul(tol, newF().SetInt64(2))) > 0 {
+				failD(c, "C07/ckks/product/value", "logSlots=%d in=%s: slot %d of the product decodes to (%s,%s), want (%s,%s), |diff|=%s budget %s", logSlots, tyNames[inTy], j,
+					got[j].re.Text('g', 18), got[j].im.Text('g', 18), exp.re.Text('g', 18), exp.im.Text('g', 18), d.Text('g', 6), tol.Text('g', 6))
+				return
+			}
+		}
+		c.Outcome(name, logSlots, famA, inTy)
+		c.Count(3)
+	}}
+}
+
+// fftScenario: Encoder.FFT equals the direct evaluation of the embedding, IFFT inverts it.
+func ckksFFTScenario(cf ckksConf) engine.Scenario {
+	name := "ckks/" + cf.name + "/fft"
+	return engine.Scenario{Name: name, Bound: -1, Fn: func(c *engine.Chooser) {
+		w := getCkksWorld(cf)
+		logn := c.Choose(w.maxL+1, "logn")
+		n := 1 << logn
+		c.Cover("ckks-fft", w.path())
+		if logn < 4 {
+			c.Cover("ckks-fft-kernel", "plain")
+		} else {
+			c.Cover("ckks-fft-kernel", "unrolled8")
+		}
+		u := make([]complex128, n)
+		a := make([]*big.Float, 2*n)
+		maxv := newF()
+		sum := newF()
+		for k := range u {
+			u[k] = complex(float64(k+1)/4-1, float64(2*k+1)/8*float64(1-2*(k%2)))
+			a[k], a[n+k] = fFrom(real(u[k])), fFrom(imag(u[k]))
+			x := fFrom(math.Abs(real(u[k])) + math.Abs(imag(u[k])))
+			maxv = fMax(maxv, x)
+			sum.Add(sum, x)
+		}
+		want := embedStandard(a, n)
+		mkBuf := func() interface{} {
+			if w.prec <= 53 {
+				return append([]complex128(nil), u...)
+			}
+			b := make([]*bignum.Complex, n)
+			for k := range b {
+				b[k] = &bignum.Complex{new(big.Float).SetPrec(w.prec).SetFloat64(real(u[k])), new(big.Float).SetPrec(w.prec).SetFloat64(imag(u[k]))}
+			}
+			return b
+		}
+		buf := mkBuf()
+		if err := w.ecd.FFT(buf, logn); err != nil {
+			failD(c, "C07/ckks/FFT/error", "%v", err)
+			return
+		}
+		got, bad := readOutput(buf, n)
+		if bad != "" {
+			failD(c, "C07/ckks/FFT/value", "%s", bad)
+			return
+		}
+		for j := range want {
+			tol := w.decTol(logn, sum, cAbsUpper(want[j]), false)
+			if d := cAbsUpper(cSub(got[j], want[j])); d.Cmp(newF().Mul(tol, newF().SetInt64(2))) > 0 {
+				failD(c, "C07/ckks/FFT/value", "logn=%d: FFT output %d is (%s,%s), direct evaluation (%s,%s)", logn, j, got[j].re.Text('g', 18), got[j].im.Text('g', 18), want[j].re.Text('g', 18), want[j].im.Text('g', 18))
+				return
+			}
+		}
+		// IFFT(FFT(u)) = u
+		if err := w.ecd.IFFT(buf, logn); err != nil {
+			failD(c, "C07/ckks/IFFT/error", "%v", err)
+			return
+		}
+		back, _ := readOutput(buf, n)
+		tol := newF().Mul(w.ulps(logn), newF().Mul(sum, newF().SetInt64(int64(2*safety))))
+		for k := range u {
+			exp := cplx{fFrom(real(u[k])), fFrom(imag(u[k]))}
+			if d := cAbsUpper(cSub(back[k], exp)); d.Cmp(newF().Mul(tol, newF().SetInt64(2))) > 0 {
+				failD(c, "C07/ckks/IFFT/value", "logn=%d: IFFT(FFT(u))[%d] = (%s,%s), want %v", logn, k, back[k].re.Text('g', 18), back[k].im.Text('g', 18), u[k])
+				return
+			}
+		}
+		c.Outcome(name, logn)
+		c.Count(2)
+	}}
+}
+
+// embedScenario: Embed into ring.Poly / ringqp.Poly under the NTT and Montgomery flags: Q and P parts carry the
+// same small integer polynomial as the plain Encode.
+func ckksEmbedScenario(cf ckksConf) engine.Scenario {
+	name := "ckks/" + cf.name + "/embed"
+	return engine.Scenario{Name: name, Bound: -1, Fn: func(c *engine.Chooser) {
+		w := getCkksWorld(cf)
+		logSlots := w.maxL - c.Choose(w.maxL+1, "logSlots")
+		level := w.L - c.Choose(2, "level")*w.L
+		mont := c.Bool("montgomery")
+		withP := c.Choose(2, "P") == 0
+		inTy := c.Choose(4, "inType")
+		n := 1 << logSlots
+		if cf.rt == ring.ConjugateInvariant && n == 1 && logSlots != w.maxL {
+			c.Skip("covered by the single-slot finding of the shape scenario")
+			return
+		}
+		c.Cover("ckks-embed", fmt.Sprintf("mont=%v P=%v", mont, withP))
+		scale := pow2(30) // small enough for level 0: the coefficients must not wrap modulo Q_0 nor modulo P
+		v, _ := family(famMixed, n, scale, uni.QAtLevel(w.p.Parameters, level))
+		ref0 := ckks.NewPlaintext(w.p, level)
+		ref0.LogDimensions.Cols = logSlots
+		ref0.Scale = rlwe.NewScale(scale)
+		if err := w.ecd.Encode(typedInput(inTy, v), ref0); err != nil {
+			panic(err)
+		}
+		want := uni.PolyCoeffs(w.p.RingQ(), ref0.Value, level, true, false)
+		Q := uni.QAtLevel(w.p.Parameters, level)
+		md := *ref0.MetaData
+		md.IsMontgomery = mont
+		rq := w.p.RingQ().AtLevel(level)
+		qp := ringqp.Poly{Q: rq.NewPoly()}
+		if withP {
+			qp.P = w.p.RingP().NewPoly()
+		}
+		err, pan := uni.Try(func() error { return w.ecd.Embed(typedInput(inTy, v), &md, qp) })
+		if pan != nil || err != nil {
+			failD(c, "C07/ckks/Embed/ringqp/error", "logSlots=%d level=%d mont=%v P=%v: err=%v panic=%v", logSlots, level, mont, withP, err, pan)
+			return
+		}
+		gotQ := uni.PolyCoeffs(w.p.RingQ(), qp.Q, level, true, mont)
+		for k := range want {
+			if gotQ[k].Cmp(want[k]) != 0 {
+				failD(c, "C07/ckks/Embed/ringqp/Q-part", "logSlots=%d level=%d mont=%v: coefficient %d is %v, Encode gives %v", logSlots, level, mont, k, gotQ[k], want[k])
+				return
+			}
+		}
+		if withP {
+			lp := w.p.MaxLevelP()
+			P := ref.Prod(w.p.P()[:lp+1])
+			gotP := uni.PolyCoeffs(w.p.RingP(), qp.P, lp, true, mont)
+			for k := range want {
+				if ref.Center(gotP[k], P).Cmp(ref.Center(want[k], Q)) != 0 {
+					failD(c, "C07/ckks/Embed/ringqp/P-part", "logSlots=%d level=%d mont=%v: coefficient %d of the P part is %v, the Q part holds %v", logSlots, level, mont, k, ref.Center(gotP[k], P), ref.Center(want[k], Q))
+					return
+				}
+			}
+		}
+		c.Outcome(name, logSlots, level, mont, withP, inTy)
+		c.Count(2)
+	}}
+}
+
+func ckksScenarios(tier string) []engine.Scenario {
+	var scs []engine.Scenario
+	for _, cf := range ckksConfigs(tier) {
+		scs = append(scs, ckksShapeScenario(cf), ckksValueScenario(cf), ckksCoeffScenario(cf), ckksProductScenario(cf), ckksFFTScenario(cf), ckksEmbedScenario(cf))
+	}
+	return scs
+}
+
+func expect(tier string) []string {
+	e := []string{
+		"bgv-domain=batched", "bgv-domain=coeff", "bgv-type=int64", "bgv-type=uint64", "bgv-level=0", "bgv-len=0", "bgv-len=1", "bgv-len=full",
+		"bgv-scale=1", "bgv-scale=t-1", "bgv-scale=(t+1)/2", "bgv-scale=q1 mod t", "bgv-gap=1", "bgv-gap=2", "bgv-gap=4",
+		"bgv-exhaust=single-slot", "bgv-exhaust=alphabet3", "bgv-product=ringT", "bgv-product=ringQ",
+		"ckks-logn=4", "ckks-logn=5", "ckks-logn=6", "ckks-ring=standard", "ckks-ring=conjugate-invariant", "ckks-path=float64", "ckks-path=arbitrary",
+		"ckks-slots=full", "ckks-slots=1", "ckks-slots=sparse", "ckks-level=0", "ckks-ntt=true", "ckks-ntt=false", "ckks-domain=coeff",
+		"ckks-fft-kernel=plain", "ckks-fft-kernel=unrolled8", "ckks-scale=2^20", "ckks-scale=2^120", "ckks-values=tiny", "ckks-values=large",
+	}
+	for _, n := range tyNames {
+		e = append(e, "ckks-in="+n)
+	}
+	return e
+}
